@@ -206,7 +206,7 @@ func (fr *Frame) checkWrite(in ssa.Instruction, ref, off, n *Term) {
 	if ok == True {
 		return
 	}
-	alts := []*Term{ok}
+	alts := []*Term{ok, Le(n, IntLit(0))} // a write of zero cells writes nothing
 	top := fr.topFrame()
 	env := top.contractEnv(top.params, nil, top.entry, top.entry)
 	for _, m := range c.Modifies {
